@@ -51,6 +51,10 @@ def cfgbits(state):
 
 def model(script, timeout=900, bits=None):
     """the extracted model in the state [bits] (default: the state found for the library in step 3)"""
+    if os.environ.get("C13_DUMP"):
+        import hashlib as _h
+        open(os.path.join(os.environ["C13_DUMP"], _h.sha1(script.encode()).hexdigest()[:10] + ".script"), "w").write(
+            "cfg %s\n" % (bits or _CFG["bits"]) + script)
     return vlib.run_model("c13", "cfg %s\n" % (bits or _CFG["bits"]) + script, timeout=timeout)
 
 
@@ -943,7 +947,25 @@ def run(ck):
     def model_job(name):
         mine = [t for t in tasks if t[0] == name]
         script = "base %s\n" % files[name].data.hex() + "".join(t[5] + "\n" + t[6] + "\n" for t in mine)
-        out = model(script)
+        try:
+            out = model(script, timeout=300)
+        except Exception as e:
+            # the engine did not finish (a state of the library in which the modelled reader runs away on some mutant: the legacy
+            # variants follow counts of 2^31): one mutant per process, so that only the mutants the model cannot evaluate stay
+            # without a model verdict -- they are reported as a broken correspondence below, never skipped silently
+            stats["model_job_fallback"] = stats.get("model_job_fallback", 0) + 1
+            res = {}
+            for t in mine:
+                try:
+                    o1 = model("base %s\n%s\n%s\n" % (files[name].data.hex(), t[5], t[6]), timeout=30)
+                except Exception:
+                    stats["model_no_verdict"] = stats.get("model_no_verdict", 0) + 1
+                    continue
+                cl = [l for l in o1 if l.startswith("c ")]
+                if cl and "END" in o1:
+                    k = len(o1) - 1 - o1[::-1].index(cl[-1])
+                    res[t[1]] = (o1[:k], o1[k])
+            return res
         res, cur = {}, []
         it = iter(mine)
         t = next(it, None)
